@@ -197,30 +197,13 @@ def run_property(mod, tier, seed):
             for t in targets:
                 okt = os.path.exists(os.path.join(coq.COQ, t)) and _fresh(t)
                 ctx.obligation("build:" + t, okt, "" if okt else log)
-    # 4. property theorems + assumptions
-    if pf:
-        if os.path.exists(os.path.join(coq.COQ, pf)) :
-            ok, out = coq.coqc_capture(pf)
-            ctx.checker_cmds.append("cd coq && coqc -Q . SFV " + pf)
-            ctx.obligation("theorems:" + pf, ok, out)
-            if ok:
-                blocks = coq.parse_assumptions(out)
-                allowed = set(getattr(mod, "ALLOWED_AXIOMS", set()))
-                names = _theorem_names(os.path.join(coq.COQ, pf))
-                ctx.extra["theorems"] = names
-                for i, b in enumerate(blocks):
-                    extra = [a for a in b if a not in allowed and a.split(".")[-1] not in allowed]
-                    ctx.axioms_seen.update(b)
-                    nm = names[i] if i < len(names) else "#%d" % i
-                    ctx.obligation("assumptions:" + nm, not extra, "unexpected axioms: %s" % extra if extra else "")
-                if len(blocks) < len(names):
-                    ctx.obligation("assumptions-printed", False, "%d theorems but %d Print Assumptions blocks" % (len(names), len(blocks)))
-        else:
-            ctx.obligation("theorems:" + pf, False, "file missing")
-
+    # 4. property theorems + assumptions (the property's own file, plus files of shared components)
+    for pf_x in [pf] + list(getattr(mod, "EXTRA_PROPERTIES_FILES", [])):
+        _audit_properties_file(ctx, mod, pf_x)
     # 4a. thorough tier: independent re-check of the compiled property file (and everything it depends on) with coqchk
-    if tier == "thorough" and pf and os.path.exists(os.path.join(coq.COQ, pf[:-2] + ".vo")):
-        modname = "SFV." + pf[:-2].replace("/", ".")
+    for pf_c in ([pf] + list(getattr(mod, "EXTRA_PROPERTIES_FILES", [])) if tier == "thorough" else []):
+      if pf_c and os.path.exists(os.path.join(coq.COQ, pf_c[:-2] + ".vo")):
+        modname = "SFV." + pf_c[:-2].replace("/", ".")
         try:
             pr = subprocess.run(["timeout", "2400", "coqchk", "-silent", "-o", "-Q", ".", "SFV", modname], cwd=coq.COQ,
                                 stdout=subprocess.PIPE, stderr=subprocess.STDOUT, text=True)
@@ -239,7 +222,7 @@ def run_property(mod, tier, seed):
             ax_names = [] if ax == "<none>" else [a.split(":")[0].strip() for a in ax.split("\n") if a.strip()]
             bad_ax = [a for a in ax_names if a not in allowed and a.split(".")[-1] not in allowed]
             okc = pr.returncode == 0 and not bad_ax and tit == "<none>" and unsafe == "<none>" and pos == "<none>"
-            ctx.extra["coqchk"] = {"axioms": ax_names, "type_in_type": tit, "unsafe_fixpoints": unsafe, "assumed_positivity": pos}
+            ctx.extra.setdefault("coqchk", {})[modname] = {"axioms": ax_names, "type_in_type": tit, "unsafe_fixpoints": unsafe, "assumed_positivity": pos}
             ctx.obligation("coqchk:" + modname, okc, summary[-1500:])
         except Exception as e:
             ctx.obligation("coqchk:" + modname, False, repr(e))
@@ -272,6 +255,31 @@ def run_property(mod, tier, seed):
             ctx.obligation(phase + ":completed", False, "%s\n%s" % (e, traceback.format_exc()[-2500:]))
 
     return finish(ctx, mod, level)
+
+
+def _audit_properties_file(ctx, mod, pf):
+    if not pf:
+        return
+    if not os.path.exists(os.path.join(coq.COQ, pf)):
+        ctx.obligation("theorems:" + pf, False, "file missing")
+        return
+    ok, out = coq.coqc_capture(pf)
+    ctx.checker_cmds.append("cd coq && coqc -Q . SFV " + pf)
+    ctx.obligation("theorems:" + pf, ok, out)
+    if not ok:
+        return
+    blocks = coq.parse_assumptions(out)
+    allowed = set(getattr(mod, "ALLOWED_AXIOMS", set()))
+    names = _theorem_names(os.path.join(coq.COQ, pf))
+    ctx.extra.setdefault("theorems", [])
+    ctx.extra["theorems"] += names
+    for i, b in enumerate(blocks):
+        extra = [a for a in b if a not in allowed and a.split(".")[-1] not in allowed]
+        ctx.axioms_seen.update(b)
+        nm = names[i] if i < len(names) else "#%d" % i
+        ctx.obligation("assumptions:" + nm, not extra, "unexpected axioms: %s" % extra if extra else "")
+    if len(blocks) < len(names):
+        ctx.obligation("assumptions-printed:" + pf, False, "%d theorems but %d Print Assumptions blocks" % (len(names), len(blocks)))
 
 
 def _fresh(target):
